@@ -675,9 +675,21 @@ def run(chk, repo):
                    why="p ** n must be the product of exactly n factors p", node=last or pw)
     td = repo.find(LP, "Poly.__truediv__")
     gens = [n for n in ast.walk(td) if isinstance(n, ast.GeneratorExp)]
+    # roles, whatever the locals are called: (delta, value) is the single term of the divisor, the scalar divisor is
+    # the hub over the argument
+    single = [a_ for a_ in ast.walk(td) if isinstance(a_, ast.Assign) and len(a_.targets) == 1 and isinstance(a_.targets[0], ast.Tuple)
+              and len(a_.targets[0].elts) == 2 and unparse(a_.value) in ("next(iteritems(other._data))", "next(iter(other._data.items()))")]
+    dname, vname_ = ([unparse(e_) for e_ in single[0].targets[0].elts] if len(single) == 1 else ("delta", "value"))
+    hubs = [a_ for a_ in ast.walk(td) if isinstance(a_, ast.Assign) and len(a_.targets) == 1 and isinstance(a_.targets[0], ast.Name)
+            and isinstance(a_.value, ast.Call) and unparse(a_.value.func) == "thub" and a_.value.args
+            and unparse(a_.value.args[0]) == "other"]
+    sname_ = hubs[0].targets[0].id if len(hubs) == 1 else "other"
     okc = 0
     for g in gens:
-        if isinstance(g.elt, ast.Tuple) and len(g.elt.elts) == 2:
+        if isinstance(g.elt, ast.Tuple) and len(g.elt.elts) == 2 and isinstance(g.generators[0].target, ast.Tuple) \
+                and len(g.generators[0].target.elts) == 2:
+            kn_, vn_ = [unparse(e_) for e_ in g.generators[0].target.elts]
+
             def hk(ev, name, node):
                 if canon(mod, node.func) == "operator.truediv":
                     return ev.ev(node.args[0]) / ev.ev(node.args[1])
@@ -686,9 +698,9 @@ def run(chk, repo):
                 kx, vx = Evaluator(call_hook=hk).ev(g.elt.elts[0]), Evaluator(call_hook=hk).ev(g.elt.elts[1])
             except Inconclusive:
                 continue
-            if kx == RF.sym("k") - RF.sym("delta") and vx == RF.sym("v") / RF.sym("value"):
+            if kx == RF.sym(kn_) - RF.sym(dname) and vx == RF.sym(vn_) / RF.sym(vname_):
                 okc += 1
-            elif kx == RF.sym("k") and vx == RF.sym("v") / RF.sym("other"):
+            elif kx == RF.sym(kn_) and vx == RF.sym(vn_) / RF.sym(sname_):
                 okc += 1
             else:
                 chk.bad("C07.product", W("Poly.__truediv__"), short(g), "division arm must map (k, v) to (k - delta, "
@@ -760,7 +772,20 @@ def run(chk, repo):
     lin = dv.subst({"v": RF.sym("a") + RF.sym("b")}) == dv.subst({"v": RF.sym("a")}) + dv.subst({"v": RF.sym("b")})
     chk.decide(lin, "C07.calculus", W("Poly.diff"), "value map is linear in the coefficient", why="diff must be linear", node=df)
     g = [s for s in docstring_free(it.body) if isinstance(s, ast.If)]
-    chk.decide(len(g) == 1 and unparse(g[0].test) == "-1 in self._data" and "ValueError" in unparse(g[0].body[0]),
+    ib_ = docstring_free(it.body)
+
+    def _tests_own_terms(t_, at_):
+        """-1 in self._data, or in a local that holds self._data when the test runs"""
+        if unparse(t_) == "-1 in self._data":
+            return True
+        if isinstance(t_, ast.Compare) and len(t_.ops) == 1 and isinstance(t_.ops[0], ast.In) and unparse(t_.left) == "-1" \
+                and isinstance(t_.comparators[0], ast.Name):
+            nm_ = t_.comparators[0].id
+            prev = [s_ for s_ in ib_[:ib_.index(at_)] if isinstance(s_, ast.Assign) and any(
+                isinstance(x_, ast.Name) and x_.id == nm_ for x_ in s_.targets)]
+            return bool(prev) and unparse(prev[-1].value) == "self._data"
+        return False
+    chk.decide(len(g) == 1 and _tests_own_terms(g[0].test, g[0]) and "ValueError" in unparse(g[0].body[0]),
                "C07.calculus", W("Poly.integrate"), "x^-1 term refused", why="1/x has no polynomial anti-derivative", node=it)
     lp = [n for n in ast.walk(df) if isinstance(n, ast.For) and not (isinstance(n.iter, ast.Call) and unparse(n.iter.func) == "iteritems")]
     chk.decide(len(lp) == 1 and unparse(lp[0].iter) in ("xrange(n)", "range(n)"), "C07.calculus", W("Poly.diff"),
